@@ -40,7 +40,7 @@ VARIABLE st
 Mk(x, y) == [x |-> x, y |-> y, u |-> Unify(x, y, EmptyM)]
 
 \* pattern against pattern: 2-tuples sharing variables on both sides (occurs check through bindings)
-PPA == {TVar("a"), TVar("b"), TNum, TList(TVar("a")), TList(TVar("b")), TMaybe(TVar("a")),
+PPA == {TVar("a"), TVar("b"), TVar("c"), TNum, TList(TVar("a")), TList(TVar("b")), TMaybe(TVar("a")),
         TObj(<<Fld(FA, TVar("a"))>>), TMap(TVar("a"), TVar("b"))}
 Seeds == IF Univ = "pairs" THEN {[seed |-> x] : x \in D1}
          ELSE IF Univ = "pp" THEN {[seed |-> TTuple(<<x1, x2>>)] : x1 \in PPA, x2 \in PPA}
